@@ -2,6 +2,7 @@ import Proofs.Bits
 import Proofs.Search
 import Proofs.ProbingAuto
 import Proofs.ProbingP2
+import Proofs.ProbingAutoP2Run
 /-!
 # C20 — Core lookup primitives behave as exact maps and arrays  (bit-packing clause)
 
@@ -477,6 +478,24 @@ theorem roundBuckets (x : Nat) (h1 : 1 ≤ x) (h2 : x ≤ 2^63) :
     ∃ j, KV.Probing.roundBuckets x = 2^j ∧ x ≤ 2^j ∧ (j = 0 ∨ 2^(j-1) < x) :=
   roundBuckets_spec x h1 h2
 
+/-- `Double` as `Power2Mod` executes it (`mask_ = (mask_ << 1) | 1`, mask versions of `Ideal`/`Next`)
+is the `Double` of `double_preserves` -/
+theorem power2_double_eq (h : Nat → Nat) (t : Table) (j : Nat) (hN : t.N = 2^j) : doubleP2 h t = double h t :=
+  doubleP2_eq h t j hN
+
+/-- **`AutoProbing` as it is compiled** — backend `ProbingHashTable<…, Power2Mod>` with mask arithmetic in
+every operation and in `Double` (`runAP2`), initial bucket count `RoundBuckets(x)`, the code's threshold —
+refines the plain map on every script: no exception, no divergence, across all doublings -/
+theorem auto_refines_map_power2 (h : Nat → Nat) (x : Nat) (h1 : 1 ≤ x) (h2 : x ≤ 2^63) (ops : List Op)
+    (outs : List Out) (M' : Nat → Option Nat) (hs : runMap (fun _ => none) ops = some (outs, M')) :
+    ∃ a', runAP2 h thetaReal { t := emptyTable (KV.Probing.roundBuckets x), thr := thetaReal (KV.Probing.roundBuckets x) } ops
+        = some (outs, a') ∧ ARef h thetaReal a' M' := by
+  obtain ⟨j, hj, _, _⟩ := roundBuckets_spec x h1 h2
+  have hpos : 0 < KV.Probing.roundBuckets x := by rw [hj]; exact Nat.two_pow_pos j
+  obtain ⟨a', hr, r, _⟩ := runAP2_refines h thetaReal thetaReal_ok ops _ _ outs M'
+    (auto_init h thetaReal _ hpos) ⟨j, hj⟩ hs
+  exact ⟨a', hr, r⟩
+
 example : KV.Probing.roundBuckets 1 = 1 ∧ KV.Probing.roundBuckets 5 = 8 ∧ KV.Probing.roundBuckets 8 = 8 ∧
     KV.Probing.roundBuckets (2^63) = 2^63 ∧ KV.Probing.roundBuckets (2^63 + 1) = 0 := by decide
 
@@ -535,6 +554,11 @@ theorem double_without_rollover_loses :
 
 /-- `AutoProbing(0)`: one bucket, threshold 0; ten insertions go through four doublings -/
 example : (runA id thetaReal { t := emptyTable 1, thr := thetaReal 1 }
+            ((List.range 10).map fun i => Op.insert (8 * i + 7) i)).map (fun r => (r.2.t.N, r.2.t.entries, r.2.thr)) =
+    some (16, 10, 14) := by decide
+
+/-- the same ten insertions through the literal `Power2Mod` code path -/
+example : (runAP2 id thetaReal { t := emptyTable 1, thr := thetaReal 1 }
             ((List.range 10).map fun i => Op.insert (8 * i + 7) i)).map (fun r => (r.2.t.N, r.2.t.entries, r.2.thr)) =
     some (16, 10, 14) := by decide
 
